@@ -205,25 +205,29 @@ def run_dup(case, res):
 
 def run_outcancel(case, res):
     form = case["form"]
-    for n in (1, 2, 5):
-        for k_done in range(0, n):
+    for n, k_done, running in [(n, k, rn) for n in (1, 2, 5) for k in range(0, n) for rn in ("none", "all", "odd")]:
+        if True:
             begin("rt")
             ctx = Ctx()
             try:
                 ins = [SpyFuture("in%d" % i) for i in range(n)]
+                # inputs whose work has started (cancel() may be refused by them) are pending inputs all the same
+                for i, f in enumerate(ins):
+                    if running == "all" or (running == "odd" and i % 2 == 1):
+                        f.set_running_or_notify_cancel()
                 out = mk(form, ins)
                 excs = {}
                 for i in range(k_done):
                     complete(ins[i], "V", i, excs)
                 r = out.cancel()
                 res.execs += 1
-                label = "f_%s n=%d, %d done, output.cancel() -> %r" % (form, n, k_done, r)
+                label = "f_%s n=%d, %d done, running inputs: %s, output.cancel() -> %r" % (form, n, k_done, running, r)
                 for i in range(k_done, n):
                     if not ins[i].cancel_calls:
                         res.violation("output-cancel-not-fanned-out/%s" % form, "%s: pending input %d received no cancel()" % (label, i))
                 if r and not out.cancelled():
                     res.violation("cancel-true-not-cancelled/%s" % form, label)
-                res.key("outcancel", form, n, k_done)
+                res.key("outcancel", form, n, k_done, running)
             finally:
                 end(ctx)
 
